@@ -84,3 +84,16 @@ func (s *Sig) Add(parts ...string) {
 }
 func (s *Sig) AddBytes(b []byte) { s.h.Write(b); s.h.Write([]byte{2}) }
 func (s *Sig) Sum() string      { return hex.EncodeToString(s.h.Sum(nil)[:12]) }
+
+// Perm returns a pseudo-random permutation of 0..n-1.
+func (r *Rand) Perm(n int) []int {
+	p := make([]int, n)
+	for i := range p {
+		p[i] = i
+	}
+	for i := n - 1; i > 0; i-- {
+		j := r.Intn(i + 1)
+		p[i], p[j] = p[j], p[i]
+	}
+	return p
+}
